@@ -906,6 +906,34 @@ func (g *depGraph) addCall(fn *ssa.Function, site ssa.CallInstruction, val *ssa.
 			}
 		}
 	}
+	// Calls from repository code into a transparent data library: besides the precise
+	// linking above, the result is the decoded/derived form of the arguments as a whole
+	// (a decoded box tree is request data when the reader is), which pointer results of
+	// constructors inside the library would otherwise hide. Receiver side only: there every
+	// decoded object stems from an upload, whereas livesim2 builds library objects from VoD data
+	// and request values side by side and a field-based heap would merge them.
+	if handled && val != nil && g.p.isRepoFunc(fn) && g.side == "recv" {
+		for _, callee := range callees {
+			if g.inGraph(callee) && !g.p.isRepoFunc(callee) {
+				full := args
+				if recvExtra != nil {
+					full = append([]ssa.Value{recvExtra}, args...)
+				}
+				if tup, ok := val.Type().(*types.Tuple); ok {
+					for i := 0; i < tup.Len(); i++ {
+						for _, a := range full {
+							g.edge(tupleNode{val, i}, a)
+						}
+					}
+				} else {
+					for _, a := range full {
+						g.edge(ssa.Value(val), a)
+					}
+				}
+				break
+			}
+		}
+	}
 	if handled && len(callees) > 0 {
 		// also opaque callees among the set? fallthrough only when none handled
 		allRepo := true
